@@ -6,7 +6,7 @@ CONSTANTS
   Overheads = {0, 1}
   Offsets = {0, 1, 2, 3, 4, 9}
   Files = {0, 1}
-  Reasons = {"a", "b"}
+  Reasons = {"", "b"}
   Peers = {1}
   Tags = {"x"}
   LastFlags = {FALSE}
